@@ -1,5 +1,6 @@
 import Op2Proofs.Bmp.Arith
 import Op2Model.Gen.Formulas
+import Op2Proofs.GenTactics
 /-!
 # Tie of the model's row-size formulas to the formulas translated from `ImageHeader::CalcPixelByteWidth / CalculatePitch`
 (only `Props/C08` depends on this file, so a rewritten but equivalent formula cannot disturb other properties)
@@ -8,10 +9,11 @@ namespace Op2.Bmp
 open Op2
 
 /-! ### the translated formulas -/
-open Op2.Gen.Formulas
+open Op2.Gen.Formulas Op2.GenTactics
 
 theorem gen_CalcPixelByteWidth_eq (bits : Nat) (w : Int) (hb : bits < 65536) :
-    gen_CalcPixelByteWidth (bits : Int) w = (pixByteWidth bits w : Nat) := by
+    gen_CalcPixelByteWidth_translated = true → gen_CalcPixelByteWidth (bits : Int) w = (pixByteWidth bits w : Nat) := by
+  gen_guard =>
   first
   | -- the source as pinned
     (unfold gen_CalcPixelByteWidth pixByteWidth toU64 castU W64
@@ -41,11 +43,14 @@ theorem gen_CalcPixelByteWidth_eq (bits : Nat) (w : Int) (hb : bits < 65536) :
      omega)
 
 theorem gen_CalculatePitch_eq (bits : Nat) (w : Int) (hb : bits < 65536) :
+    (gen_CalcPixelByteWidth_translated && gen_CalculatePitch_translated) = true →
     gen_CalculatePitch (bits : Int) w = (pitch bits w : Nat) := by
+  gen_guard =>
+  have hw' := gen_CalcPixelByteWidth_eq bits w hb (by decide)
   first
   | -- the source as pinned: `(bytesOfPixelsPerRow + 3) & ~3`
     (unfold gen_CalculatePitch
-     simp only [gen_CalcPixelByteWidth_eq bits w hb]
+     simp only [hw']
      have em : (castU 64 (castS 32 (-(3 : Int) - 1))).toNat = 2 ^ 64 - 4 := by decide
      have e3 : castU 64 (3 : Int) = 3 := by decide
      rw [em, e3]
@@ -56,7 +61,7 @@ theorem gen_CalculatePitch_eq (bits : Nat) (w : Int) (hb : bits < 65536) :
      rfl)
   | -- any rewriting of the rounding in plain `size_t` arithmetic (`/`, `*`, `%`, `+`, `-` with literals)
     (unfold gen_CalculatePitch pitch
-     simp only [gen_CalcPixelByteWidth_eq bits w hb]
+     simp only [hw']
      generalize pixByteWidth bits w = q
      simp only [castU, castS, W64, Int.reducePow, Int.reduceMod, Int.reduceSub, Int.reduceNeg, Int.reduceAdd]
      omega)
